@@ -61,7 +61,8 @@ def jobs(tier, seed):
             for b in range(len(ALPHABET)):
                 out.append({'mode': 'hist', 'zc': zc, 'prefix': [a, b], 'depth': depth, 'seed': seed})
         out.append({'mode': 'hist', 'zc': zc, 'prefix': [], 'depth': 1, 'seed': seed})
-    for l1, l2 in itertools.permutations([l for l in LISTS if l != 'm1p'], 2):
+    for pi_, (l1, l2) in enumerate(itertools.permutations([l for l in LISTS if l != 'm1p'], 2)):
+        out.append({'mode': 'warm', 'l1': l1, 'l2': l2, 'engine': ['MD', 'RDA', 'IG'][pi_ % 3], 'seed': seed, 'tmode': 'none'})
         for eng in ['MD', 'RDA', 'IG']:
             out.append({'mode': 'warm', 'l1': l1, 'l2': l2, 'engine': eng, 'seed': seed})
             if eng != 'RDA' or l1 == 'm3':
@@ -240,17 +241,28 @@ def run_warm_zeros(l1, l2, engine, seed):
     return fails, 0.0
 
 
-def run_warm(l1, l2, engine, seed):
+def run_warm(l1, l2, engine, seed, tmode='given'):
     from mbi import Domain, FactoredInference
     M.deterministic_eigsh()
     eng = FactoredInference(Domain(M.ATTRS3, M.SIZES3), iters=300, warm_start=True)
     p1, p2 = problem(l1, seed), problem(l2, seed + 1)
     with M.quiet():
-        eng.estimate(p1.fresh_measurements(), total=70.0, engine=engine)
-        eng.iters = 1500
-        model = eng.estimate(p2.fresh_measurements(), total=70.0, engine=engine)
+        if tmode == 'given':
+            eng.estimate(p1.fresh_measurements(), total=70.0, engine=engine)
+            eng.iters = 1500
+            model = eng.estimate(p2.fresh_measurements(), total=70.0, engine=engine)
+            T = 70.0
+        else:
+            # first call with a supplied total of 25, second call leaves the total to be estimated from the second list (about 70)
+            eng.estimate(p1.fresh_measurements(), total=25.0, engine=engine)
+            eng.iters = 1500
+            model = eng.estimate(p2.fresh_measurements(), total=None, engine=engine)
+            cold = FactoredInference(Domain(M.ATTRS3, M.SIZES3), iters=1)
+            T = float(cold.estimate(p2.fresh_measurements(), total=None, engine=engine).total)
+            if abs(float(model.total) - T) > 1e-9 * T:
+                return [('warm-total', 'warm start %s -> %s with %s, total omitted on the second call: model.total %.10g, a cold start estimates %.10g' % (
+                    l1, l2, engine, float(model.total), T))], 0.0
     p = np.asarray(model.datavector(), dtype=float)
-    T = 70.0
     pref, fref, gap = p2.reference(T)
     fu = p2.f(p2.uniform(T))
     fp = p2.f(p)
@@ -269,7 +281,10 @@ def run_job(job):
     acc.digests_states = set()
     if job['mode'] in ('warm', 'warm-zeros'):
         case = dict(job)
-        fails, ratio = (run_warm if job['mode'] == 'warm' else run_warm_zeros)(job['l1'], job['l2'], job['engine'], job['seed'])
+        if job['mode'] == 'warm':
+            fails, ratio = run_warm(job['l1'], job['l2'], job['engine'], job['seed'], job.get('tmode', 'given'))
+        else:
+            fails, ratio = run_warm_zeros(job['l1'], job['l2'], job['engine'], job['seed'])
         acc.case(case)
         acc.states += 2
         acc.transitions += 2
@@ -306,7 +321,10 @@ def run_job(job):
 
 def replay(case):
     if case.get('mode') in ('warm', 'warm-zeros'):
-        fails, _ = (run_warm if case['mode'] == 'warm' else run_warm_zeros)(case['l1'], case['l2'], case['engine'], case['seed'])
+        if case['mode'] == 'warm':
+            fails, _ = run_warm(case['l1'], case['l2'], case['engine'], case['seed'], case.get('tmode', 'given'))
+        else:
+            fails, _ = run_warm_zeros(case['l1'], case['l2'], case['engine'], case['seed'])
     else:
         fails = run_history(case['zc'], case['hist'], case['seed'])
     for k, m in fails:
